@@ -419,6 +419,19 @@ func runC03(r *core.Run) {
 			return core.Outcome{Class: "types=" + ty, Nontrivial: true, Evals: 3}
 		})
 
+	marshalHistories(r, "sam", func() []marshaller {
+		var out []marshaller
+		recs := samRecordPool()
+		long := defaultSamRec()
+		long.Seq, long.Qual = core.S(longSeq(200)), core.S(longSeq(200))
+		recs = append(recs, long)
+		for i, rc := range recs {
+			s := rc.build()
+			out = append(out, marshaller{fmt.Sprint("pool record ", i), s.MarshalText, func(w *bytes.Buffer) error { return s.Write(w) }})
+		}
+		return out
+	})
+
 	pool := samRecordPool()
 	maxLines := 3
 	r.Bound("files", fmt.Sprintf("every sequence of 0..%d lines over %d headers %q and %d records (quotes in Qname/Rname/Seq/Qual/Z tags, empty fields)", maxLines, len(samHeaders), samHeaders, len(pool)))
